@@ -319,6 +319,36 @@ func cmdXform(args []string) int {
 			id++
 		}
 	}
+	// data-type hints left by earlier stages: every transform behind each stage that classifies the block, on the data classes
+	// these stages tell apart (including almost-valid UTF-8)
+	hintShapes := []string{"text", "utf8", "utf8cjk", "utf8dmg", "dna", "x86", "wav", "mixed", "html", "numeric", "base64", "exe"}
+	for ai, a := range []string{"TEXT", "UTF", "EXE", "MM", "PACK", "DNA"} {
+		for bi, b := range transformNames {
+			if b == "NONE" {
+				continue
+			}
+			nsh := 4
+			if *thorough {
+				nsh = len(hintShapes)
+			}
+			for k := 0; k < nsh; k++ {
+				shape := hintShapes[(ai*5+bi*3+k)%len(hintShapes)]
+				if k == 0 && (a == "TEXT" || b == "UTF") {
+					shape = []string{"utf8dmg", "utf8cjk"}[(ai+bi)%2]
+				}
+				add(a+"+"+b, shape, []int{30000, 65536, 9000, 70001}[(ai+bi+k)%4], -1, "NONE")
+			}
+		}
+	}
+	// almost-valid UTF-8: consecutive seeds enumerate (kind of damage, lead byte) for the stages that validate or trust UTF-8
+	ndmg := 60
+	if *thorough {
+		ndmg = 330
+	}
+	for k := 0; k < ndmg; k++ {
+		add([]string{"TEXT+UTF", "UTF", "TEXT+UTF+LZ"}[k/55%3], "utf8dmg", []int{30000, 65536}[k%2], -1, "NONE")
+		cases[len(cases)-1].Seed = *seed*1009 + int64(k) // kind = seed mod 5, lead = (seed / 5) mod #leads
+	}
 	// random single transforms and chains (sequence level)
 	for i := 0; i < *n; i++ {
 		t := pick(rnd, transformNames)
